@@ -8,6 +8,8 @@ CONSTANTS
   Ops2 = {}
   NestDepths = {}
   SpliceWindow = 8
+  OctetSel = {"empty", "b1", "m1", "p1", "flip0", "fliplast", "x2", "badb64", "pad", "null", "num", "obj", "arr"}
+  JweCbcAlgs = {"RSA1_5", "RSA-OAEP", "RSA-OAEP-256", "A128KW", "A192KW", "A256KW", "dir", "ECDH-ES", "ECDH-ES+A128KW", "ECDH-ES+A192KW", "ECDH-ES+A256KW", "A128GCMKW", "A192GCMKW", "A256GCMKW"}
   StructAllSeeds = FALSE
   SpliceOther = FALSE
   RandLens = {}
